@@ -92,7 +92,7 @@ def scenario(seed):
     return {
         "seed": seed, "fmt": fmt, "opts": opts,
         "name": rng.randrange(len(NAME_CLASSES)),
-        "preexisting": rng.random() < 0.6,
+        "preexisting": rng.choice([False, False, True, True, True, "long", "dir"]),
         "big": rng.random() < 0.15,
         "bufsize": rng.choice([0, 0, 64, 8192, 8192]),  # writer buffer of the simulated file layer
     }
@@ -157,9 +157,14 @@ def run_once(d, sc, plan, exdev, ref):
         name = pattern % {"ext": sc["fmt"], "dir": sb.root}
         path = name  # as handed to the library (relative names resolve against cwd)
         full = name if os.path.isabs(name) else os.path.join(sb.root, name)
-        if sc["preexisting"]:
-            with iosim.real_open(full, "wb") as f:
+        old_bytes = OLD * 400 if sc["preexisting"] == "long" else OLD  # longer than most new contents
+        if sc["preexisting"] == "dir":
+            os.makedirs(full)
+            with iosim.real_open(os.path.join(full, "inner.txt"), "wb") as f:
                 f.write(OLD)
+        elif sc["preexisting"]:
+            with iosim.real_open(full, "wb") as f:
+                f.write(old_bytes)
         before = sb.listing()
         states = []
 
@@ -169,14 +174,19 @@ def run_once(d, sc, plan, exdev, ref):
                     return f.read()
             except FileNotFoundError:
                 return None
+            except IsADirectoryError:
+                return ("dir", tuple(sorted(os.listdir(full))))
 
         def observe_dest(label):
             states.append((label, read_dest()))
 
-        old = OLD if sc["preexisting"] else None
+        old = old_bytes if sc["preexisting"] else None
+        if sc["preexisting"] == "dir":
+            # the name is taken by a directory: the call must fail and leave it as it is
+            old = ("dir", ("inner.txt",))
 
         def acceptable(data):
-            return data == old or (data is not None and same_content(sc["fmt"], data, ref))
+            return data == old or (isinstance(data, bytes) and same_content(sc["fmt"], data, ref))
 
         sim = iosim.FsSim(sb.tmp, plan=plan, exdev=exdev, observe=observe_dest, bufsize=sc.get("bufsize", 0))
         outcome = "returned"
@@ -207,12 +217,23 @@ def run_once(d, sc, plan, exdev, ref):
         for label, data in states[-1:]:
             if not acceptable(data):
                 detail["at"] = label
-                detail["destination_bytes"] = None if data is None else len(data)
-                detail["expected_old_bytes"] = None if old is None else len(old)
+                detail["destination_bytes"] = len(data) if isinstance(data, bytes) else repr(data)
+                detail["expected_old_bytes"] = len(old) if isinstance(old, bytes) else repr(old)
                 detail["expected_new_bytes"] = None if ref is None else len(ref)
                 kind = "absent-but-written-elsewhere" if data is None and not plan else (
-                    "truncated-or-partial" if data is not None and len(data) < len(ref or b"") else "wrong-content")
+                    "truncated-or-partial" if isinstance(data, bytes) and len(data) < len(ref or b"") else "wrong-content")
                 raise Violation("C17", "all-or-nothing" if plan else "exact", kind, detail, facts)
+        if sc["preexisting"] == "dir":
+            facts["destination_is_directory"] = True
+            if outcome == "returned":
+                detail["listing"] = sb.listing()
+                raise Violation("C17", "swallowed-failure", "returned-though-destination-is-a-directory", detail, facts)
+            stray = sorted(set(sb.listing()) - set(before))
+            if stray and outcome == "raised" and not plan:
+                detail["unexpected_files"] = stray
+                raise Violation("C17", "exact", "written-elsewhere", detail, facts)
+            return {"trace": sim.trace, "fired": sim.fired, "outcome": "dir-" + outcome, "leaked": stray,
+                    "restart": None, "retry": None}
         if ref is None:
             facts["unserialisable"] = True
             if outcome == "returned":
